@@ -119,7 +119,8 @@ pub fn run(tier: Tier, rep: &mut Report) -> (String, String) {
         r.sample(|| format!("all next/next_back histories of chars/char_indices (+rev, rev.rev) on {s:?}"));
     }));
     // every char of the boundary-complete set in three contexts (alone, between ASCII, doubled, after a 4-byte char)
-    let chars: Vec<char> = if tier == Tier::Miri { char_set(tier).into_iter().step_by(12).collect() } else { char_set(tier) };
+    // under the interpreter: the first and last char of every lead-byte class boundary (each between two ASCII chars)
+    let chars: Vec<char> = if tier == Tier::Miri { lead_byte_edge_chars() } else { char_set(tier) };
     let ctx: Vec<String> = chars.iter().flat_map(|c| if tier == Tier::Miri { vec![format!("a{c}b")] } else { vec![c.to_string(), format!("a{c}b"), format!("{c}{c}"), format!("😀{c}ñ")] }).collect();
     rep.merge(par_each(&ctx, th, |s, r| one_string(r, s, None, &None)));
     (
